@@ -145,3 +145,5 @@ func vEach(f func()) {
 func vDump(name string, x interface{}) {}
 
 func vHasParam(name string) bool { _, ok := vhParams[name]; return ok }
+
+func vSharedWrites(f func()) int { f(); return 0 }
